@@ -108,6 +108,9 @@ class ParallelModel(ConfigurableModel):
                 except Exception as exc:
                     results[step_name] = f"Error: {exc}"
 
+        # Futures complete in arbitrary order: report results in the order the steps were declared
+        results = {name: results[name] for name, _ in self.step_configs if name in results}
+
         # Apply aggregator if provided
         if self.aggregator:
             # Convert dictionary of results to a list of values for the aggregator
